@@ -137,6 +137,14 @@ def join(a: AV, b: AV) -> AV:
     kind = None
     if a.kind is not None and b.kind is not None:
         kind = a.kind | b.kind
+    # numeric literals (0, -1, nan placeholders) are unit-polymorphic
+    def _lit(v):
+        return isinstance(v.cval, (int, float)) and v.unit is None and \
+            v.kind is None and v.idx is None
+    if _lit(a) and not _lit(b):
+        unit, kind = b.unit, b.kind
+    elif _lit(b) and not _lit(a):
+        unit, kind = a.unit, a.kind
     return AV(num=join_num(a.num, b.num),
               exact=a.exact if a.exact == b.exact else
               (False if (a.exact is False or b.exact is False) else None),
@@ -231,7 +239,12 @@ class Interp:
 
     # ------------------------------------------------------------------
     def run(self):
-        self.exec_block(self.fi.node.body, self.env)
+        self.exit_envs = []
+        end = self.exec_block(self.fi.node.body, self.env)
+        fe = end
+        for e in self.exit_envs:
+            fe = join_env(fe, e)
+        self.final_env = fe or {}
         r = None
         for v in self.returns:
             r = v if r is None else join(r, v)
@@ -284,6 +297,8 @@ class Interp:
         if isinstance(s, ast.Return):
             v = self.eval(s.value, env) if s.value is not None else NONE
             self.returns.append(v)
+            if hasattr(self, "exit_envs"):
+                self.exit_envs.append(dict(env))
             for o in self.observers:
                 o.on_return(self, s, v)
             return None
